@@ -10,7 +10,7 @@ Argument: *last write wins*.  Inside the group of `k` every binary RPM is follow
 the last write of the group is that record (`C12_rpms_content`); everything the reader does afterwards addresses
 another source-package key, another arch or another variant (`C12_rpms_frame_*`).
 -/
-namespace PM.Mf
+namespace PM.Mf.C10
 open PM PM.Spec
 open PM.PyOps (iter subscript item pyEq)
 set_option Elab.async false
@@ -18,13 +18,13 @@ set_option Elab.async false
 /-! ### small facts -/
 
 theorem add_ok_plan {s s' : PyVal} {args : RpmsArgs} (h : Rpms.add s args = (s', .ok ())) : ∃ p, rpmsCheck args = .ok p := by
-  unfold Rpms.add at h
+  rw [Rpms.add_eq] at h
   cases hc : rpmsCheck args with
   | error e => rw [hc] at h; simp only [Prod.mk.injEq] at h; cases h.2
   | ok p => exact ⟨p, rfl⟩
 
 theorem add_check_error {s : PyVal} {args : RpmsArgs} {e : Err} (h : rpmsCheck args = .error e) : (Rpms.add s args).1 = s := by
-  unfold Rpms.add; rw [h]
+  rw [Rpms.add_eq, h]
 
 theorem pyEq_str (a b : Str) : pyEq (.str a) (.str b) = true ↔ a = b := by
   rw [PyOps.pyEq_iff]
@@ -498,4 +498,4 @@ theorem serialize_rpms_payload (m : Manifest) (doc : PyVal) (h : (serialize .rpm
   subst h
   exact ⟨_, rfl, rfl⟩
 
-end PM.Mf
+end PM.Mf.C10
